@@ -144,14 +144,14 @@ def gen_history(rnd, cfg, mode, nsteps):
         w = {"call": 6, "connect": 1.0 if len(live) < 4 and sh.nextid < 6 else 0, "disc": 1.3,
              "genuine": 5 if sh.out else 0, "dup": 2 if sh.done else 0, "wrong": 2 if sh.out else 0,
              "third": 2 if sh.out and len(live) >= 3 else 0, "tothird": 2 if sh.out and len(live) >= 3 else 0,
-             "callrs": 0.7 if sh.out or sh.done else 0.2, "sigrs": 0.5, "unsol": 0.8, "sig": 0.8, "name": 1.0, "match": 0.3,
+             "callrs": 0.7 if sh.out or sh.done else 0.2, "sigrs": 0.5, "unsol": 0.8, "sig": 0.8, "name": 1.0, "match": 0.3, "drv": 0.3,
              "tick": ((10.0 if sh.out else 2.0) if nticks < 3 else 0) if timed else 0.15}
         if len(cfg) > 3:
             idle = [k for k in live if not any(o[0] == k for o in sh.out)]
             w["block"] = 2.0 if idle and len(sh.blocked) < 2 and len(live) > 2 else 0
             w["drain"] = 1.5 if sh.blocked else 0
         if mode == "c05":
-            w.update({"match": 2.5 if sh.nrules < 5 else 0.3, "name": 4, "sig": 3, "call": 6, "unsol": 2.5, "genuine": 3 if sh.out else 0, "dup": 0.5 if sh.done else 0,
+            w.update({"drv": 2.0, "match": 2.5 if sh.nrules < 5 else 0.3, "name": 4, "sig": 3, "call": 6, "unsol": 2.5, "genuine": 3 if sh.out else 0, "dup": 0.5 if sh.done else 0,
                       "wrong": 0.5 if sh.out else 0, "third": 0.5 if w["third"] else 0, "tothird": 0.5 if w["tothird"] else 0})
         kinds = [k for k in w if w[k] > 0]
         kind = rnd.choices(kinds, [w[k] for k in kinds])[0]
@@ -227,6 +227,8 @@ def gen_history(rnd, cfg, mode, nsteps):
             sh.ev.append("U.%d" % c)
         elif kind == "match":
             sh.add_match(rnd.choice(live))
+        elif kind == "drv":
+            sh.ev.append("G.%d.%d" % (rnd.choice(live), sh.serial()))
         elif kind == "tick":
             nticks += 1
             d = rnd.choice((TICK_PART, TICK_PART, TICK_FULL, TICK_FULL)) if timed else 40
@@ -319,6 +321,11 @@ def scenarios():
                                                    call(0, "n8", 11, 8, nr=1), "D.0", "R.2.12.8.0"]))
         S.append(("act-six-in-a-row", (R, 50, -1), ["C0", "C0"] + [call(0, "n9", 30 + i, 1 + i, nr=1) for i in range(6)] + ["R.1.9.9.4", call(0, "n9", 40, 9, nr=1)]))
         S.append(("act-reply-serial", (R, 50, -1), ["C0", "C0", "C0", call(1, "u0", 5, 1), ret(0, "n8", 6, 5, 2), "S.0.s.0.0.7.0.n8.0.3", "R.1.9.8.0"]))
+    # calls to the bus driver are unicast: plain rules of every shape get nothing, eavesdrop rules one copy (also the caller's own)
+    for R in (0, 1):
+        S.append(("driver-calls", (R, 50, -1), ["C0", "C0", "C0", "C0", "M.1.20.0.x.x.x", "M.1.21.0.c.x.x", "M.1.22.0.x.u0.x", "M.1.23.0.s.x.x", "M.2.24.1.x.x.x",
+                                                "M.3.25.1.c.u0.x", "M.3.26.1.s.x.x", "R.0.30.3.0", "G.0.31", "G.0.32", "L.0.33.3", "M.0.34.1.x.x.x", "G.0.35",
+                                                "R.1.36.4.4", "G.3.37", "D.2", "G.0.38"]))
     S.append(("queue-eavesdropper", (0, 4, -1, Q), ["C0", "C0", "C0", "M.2.20.1.x.x.x", "B.2", "S.0.s.0.0.7.0.u1.0.1", call(0, "u1", 8, 2), "U.2", "S.0.s.0.0.9.0.u1.0.3"]))
     return S
 
